@@ -245,6 +245,7 @@ func checkC20(c *Ctx) {
 	}
 	c20Pure(c, onceState)
 	c20Held(c)
+	c20ConnFields(c)
 	// Config.ticketKeys() hands the slice out under the read lock and callers read it after unlocking; Clone shares it
 	sharedSliceImmutable(c, "L-PUBLISHED", "gmtls", "sessionTicketKeys", 4,
 		"the published ticket-key slice is replaced as a whole, never written in place",
@@ -640,97 +641,109 @@ func guardedWrite(fa *ssa.FieldAddr) string {
 // (*Conn).readRecord runs with c.in locked, (*Conn).writeRecordLocked and sendAlertLocked with c.out locked. Every
 // static call site is either dominated by an un-released Lock of that half-connection, or lies in a function whose
 // own call sites all satisfy this (checked up the call chain to the exported entry points).
+// halfLocks: reasoning about the two half-connection mutexes of a Conn (c.in, c.out)
+type halfLocks struct{ c *Ctx }
+
+func (hl halfLocks) halfOf(l *ssa.Call) string {
+	if len(l.Call.Args) == 0 {
+		return ""
+	}
+	v := l.Call.Args[0]
+	for {
+		fa, ok := v.(*ssa.FieldAddr)
+		if !ok {
+			return ""
+		}
+		n := fieldName(fa.X.Type(), fa.Field)
+		if n == "in" || n == "out" {
+			if strings.HasSuffix(strings.TrimPrefix(fa.X.Type().String(), "*"), "gmtls.Conn") {
+				return n
+			}
+		}
+		v = fa.X
+	}
+}
+
+// holds: at instruction `at` of g an un-released Lock of that half connection dominates
+func (hl halfLocks) holds(g *ssa.Function, at ssa.Instruction, half string) bool {
+	var locks, unlocks []*ssa.Call
+	for _, ci := range allCalls(g) {
+		call, ok := ci.(*ssa.Call)
+		if !ok {
+			continue
+		}
+		switch calleeID(&call.Call) {
+		case "(*sync.Mutex).Lock":
+			if hl.halfOf(call) == half {
+				locks = append(locks, call)
+			}
+		case "(*sync.Mutex).Unlock":
+			if hl.halfOf(call) == half {
+				unlocks = append(unlocks, call)
+			}
+		}
+	}
+	for _, l := range locks {
+		if !instrDominates(l, at) {
+			continue
+		}
+		released := false
+		for _, u := range unlocks {
+			if instrDominates(l, u) && instrDominates(u, at) {
+				released = true
+			}
+			if instrDominates(l, u) && instrReaches(u, at, nil) && !instrReaches(at, u, nil) {
+				released = true
+			}
+		}
+		if !released {
+			return true
+		}
+	}
+	return false
+}
+
+// callersHold: every static call site of f is made with the lock held, or lies in a function for which that is true
+func (hl halfLocks) callersHold(f *ssa.Function, half string, depth int, seen map[*ssa.Function]bool) (bool, string) {
+	c := hl.c
+	if seen[f] {
+		return true, "" // recursion: decided by the other call sites
+	}
+	seen[f] = true
+	if depth > 8 {
+		return false, "call chain too deep at " + fname(f)
+	}
+	sites := callSiteIndex[f]
+	if addrTaken[f] {
+		return false, fname(f) + " is used as a function value"
+	}
+	if len(sites) == 0 {
+		return false, fname(f) + " has no caller in the repository and does not take the lock itself"
+	}
+	for _, cs := range sites {
+		g := cs.Parent()
+		if strings.HasSuffix(c.P.relFile(g.Pos()), "_test.go") {
+			continue
+		}
+		if hl.holds(g, cs, half) {
+			continue
+		}
+		if ok, why := hl.callersHold(g, half, depth+1, seen); !ok {
+			if why == "" {
+				why = fname(g)
+			}
+			return false, "reached from " + fname(g) + " at " + c.P.pos(cs.Pos()) + " without c." + half + " locked (" + why + ")"
+		}
+	}
+	return true, ""
+}
+
 func c20Held(c *Ctx) {
 	rule := "L-HELD"
 	buildCallIndex(c.P)
-	halfOf := func(l *ssa.Call) string {
-		if len(l.Call.Args) == 0 {
-			return ""
-		}
-		v := l.Call.Args[0]
-		for {
-			fa, ok := v.(*ssa.FieldAddr)
-			if !ok {
-				return ""
-			}
-			n := fieldName(fa.X.Type(), fa.Field)
-			if n == "in" || n == "out" {
-				if strings.HasSuffix(strings.TrimPrefix(fa.X.Type().String(), "*"), "gmtls.Conn") {
-					return n
-				}
-			}
-			v = fa.X
-		}
-	}
-	holds := func(g *ssa.Function, at ssa.Instruction, half string) bool {
-		var locks, unlocks []*ssa.Call
-		for _, ci := range allCalls(g) {
-			call, ok := ci.(*ssa.Call)
-			if !ok {
-				continue
-			}
-			switch calleeID(&call.Call) {
-			case "(*sync.Mutex).Lock":
-				if halfOf(call) == half {
-					locks = append(locks, call)
-				}
-			case "(*sync.Mutex).Unlock":
-				if halfOf(call) == half {
-					unlocks = append(unlocks, call)
-				}
-			}
-		}
-		for _, l := range locks {
-			if !instrDominates(l, at) {
-				continue
-			}
-			released := false
-			for _, u := range unlocks {
-				if instrDominates(l, u) && instrDominates(u, at) {
-					released = true
-				}
-				if instrDominates(l, u) && instrReaches(u, at, nil) && !instrReaches(at, u, nil) {
-					released = true
-				}
-			}
-			if !released {
-				return true
-			}
-		}
-		return false
-	}
-	var check func(f *ssa.Function, half string, depth int, seen map[*ssa.Function]bool) (bool, string)
-	check = func(f *ssa.Function, half string, depth int, seen map[*ssa.Function]bool) (bool, string) {
-		if seen[f] {
-			return true, "" // recursion: decided by the other call sites
-		}
-		seen[f] = true
-		if depth > 8 {
-			return false, "call chain too deep at " + fname(f)
-		}
-		sites := callSiteIndex[f]
-		if addrTaken[f] {
-			return false, fname(f) + " is used as a function value"
-		}
-		if len(sites) == 0 {
-			return false, fname(f) + " has no caller in the repository and does not take the lock itself"
-		}
-		for _, cs := range sites {
-			g := cs.Parent()
-			if strings.HasSuffix(c.P.relFile(g.Pos()), "_test.go") {
-				continue
-			}
-			if holds(g, cs, half) {
-				continue
-			}
-			if ok, why := check(g, half, depth+1, seen); !ok {
-				if why == "" {
-					why = fname(g)
-				}
-				return false, "reached from " + fname(g) + " at " + c.P.pos(cs.Pos()) + " without c." + half + " locked (" + why + ")"
-			}
-		}
-		return true, ""
+	hl := halfLocks{c}
+	check := func(f *ssa.Function, half string, depth int, seen map[*ssa.Function]bool) (bool, string) {
+		return hl.callersHold(f, half, depth, seen)
 	}
 	for _, e := range []struct{ fn, half string }{
 		{"(*Conn).readRecord", "in"},
@@ -745,5 +758,49 @@ func c20Held(c *Ctx) {
 		c.Evals++
 		ok, why := check(f, e.half, 0, map[*ssa.Function]bool{})
 		c.Check(ok, rule, fname(f), "only reachable with c."+e.half+" locked", fmt.Sprintf("%d direct call sites", len(callSiteIndex[f])), "the routine updates the "+e.half+"-bound half connection (sequence number, cipher state, buffers) and assumes its mutex is held, but it is "+why+": concurrent Read/Write/Close calls race on the record state", f.Pos())
+	}
+}
+
+// c20ConnFields: the Conn fields that the record layer documents as belonging to one half connection are only
+// touched with that half's mutex held (in the function itself, or by every caller up the chain): close-notify state
+// under c.out; the decrypted input, the raw input, the handshake buffer and the warning counter under c.in.
+func c20ConnFields(c *Ctx) {
+	rule := "L-GUARDED"
+	buildCallIndex(c.P)
+	hl := halfLocks{c}
+	guarded := map[string]string{"closeNotifySent": "out", "closeNotifyErr": "out", "input": "in", "rawInput": "in", "hand": "in", "warnCount": "in"}
+	n := map[string]int{}
+	for _, f := range c.P.RepoFuncs("gmtls") {
+		if strings.HasSuffix(c.P.relFile(f.Pos()), "_test.go") {
+			continue
+		}
+		instrsOf(f, func(_ *ssa.BasicBlock, in ssa.Instruction) {
+			fa, ok := in.(*ssa.FieldAddr)
+			if !ok || !strings.HasSuffix(strings.TrimPrefix(fa.X.Type().String(), "*"), "gmtls.Conn") {
+				return
+			}
+			name := fieldName(fa.X.Type(), fa.Field)
+			half, ok := guarded[name]
+			if !ok {
+				return
+			}
+			n[name]++
+			c.Evals++
+			construct := fmt.Sprintf("access #%d to Conn.%s", n[name], name)
+			if hl.holds(f, fa, half) {
+				c.Holds(rule, fname(f), construct, "c."+half+" locked here", fa.Pos())
+				return
+			}
+			if ok, why := hl.callersHold(f, half, 0, map[*ssa.Function]bool{}); ok {
+				c.Holds(rule, fname(f), construct, "every caller holds c."+half, fa.Pos())
+			} else {
+				c.Violated(rule, fname(f), construct, "Conn."+name+" belongs to the c."+half+" half connection but is accessed here without that mutex ("+why+"): a concurrent Read/Write/Close observes or produces a state no sequential order allows", fa.Pos())
+			}
+		})
+	}
+	for name := range guarded {
+		if n[name] == 0 {
+			c.Undecided(rule, "gmtls.Conn", "accesses to "+name, "none found", token.NoPos)
+		}
 	}
 }
